@@ -1,6 +1,369 @@
-//! C39 — not built yet.
-use vcommon::Args;
+//! C39 — dropping or shutting down a connection releases it correctly.
+//!
+//! A: a connection with a set of outstanding handles (clone, message stream, proxy + signal
+//!    stream, interface reference); the handles are dropped by environment events in every order,
+//!    interleaved with task polls. Invariant on every step: the transport is closed ⇔ no handle is
+//!    left (checked as "never closed early" on every step and "closed" at quiescence).
+//! B: graceful shutdown with an in-flight (gated) method handler.
 
-pub fn main(_args: &Args) -> i32 {
-    vcommon::machinery_failure("C39: check not built yet")
+use std::{
+    future::Future,
+    pin::Pin,
+    sync::{Arc, Mutex},
+    task::{Context, Poll, Waker},
+};
+
+use serde_json::json;
+use vcommon::{Args, Report};
+use zbus::{connection::Builder, proxy::CacheProperties, MatchRule, MessageStream};
+
+use crate::{
+    explore::ExecResult,
+    sched::{finish_model_checking, run_scenario, v, SchedPlan, Totals},
+    world::{parse_message, split_messages, Link, SockCfg, Step, World, GUID},
+};
+
+#[derive(Clone, Default)]
+struct Gate(Arc<Mutex<(bool, Option<Waker>)>>);
+impl Gate {
+    fn open(&self) {
+        let w = {
+            let mut g = self.0.lock().unwrap();
+            g.0 = true;
+            g.1.take()
+        };
+        if let Some(w) = w {
+            w.wake();
+        }
+    }
+    fn wait(&self) -> GateFut {
+        GateFut(self.clone())
+    }
+}
+struct GateFut(Gate);
+impl Future for GateFut {
+    type Output = ();
+    fn poll(self: Pin<&mut Self>, cx: &mut Context<'_>) -> Poll<()> {
+        let mut g = self.0 .0.lock().unwrap();
+        if g.0 {
+            Poll::Ready(())
+        } else {
+            g.1 = Some(cx.waker().clone());
+            Poll::Pending
+        }
+    }
+}
+
+struct Slow {
+    gate: Gate,
+    started: Arc<Mutex<bool>>,
+}
+#[zbus::interface(name = "a.b.Slow")]
+impl Slow {
+    async fn work(&self) -> u32 {
+        *self.started.lock().unwrap() = true;
+        self.gate.wait().await;
+        7
+    }
+    fn quick(&self) -> u32 {
+        1
+    }
+    #[zbus(signal)]
+    async fn sig(e: &zbus::object_server::SignalEmitter<'_>) -> zbus::Result<()>;
+}
+
+struct SlowNoSpawn {
+    gate: Gate,
+    started: Arc<Mutex<bool>>,
+}
+#[zbus::interface(name = "a.b.Slow", spawn = false)]
+impl SlowNoSpawn {
+    async fn work(&self) -> u32 {
+        *self.started.lock().unwrap() = true;
+        self.gate.wait().await;
+        7
+    }
+}
+
+fn closed(link: &Link) -> bool {
+    link.a2b.with(|c| c.writer_dropped || c.closed)
+}
+
+enum Handle_ {
+    Clone(zbus::Connection),
+    Stream(MessageStream),
+    RuleStream(MessageStream),
+    Proxy(zbus::Proxy<'static>),
+    SignalStream(zbus::proxy::SignalStream<'static>),
+    IfaceRef(zbus::object_server::InterfaceRef<Slow>),
+}
+
+fn handle_name(h: &Handle_) -> &'static str {
+    match h {
+        Handle_::Clone(_) => "clone",
+        Handle_::Stream(_) => "stream",
+        Handle_::RuleStream(_) => "rule-stream",
+        Handle_::Proxy(_) => "proxy",
+        Handle_::SignalStream(_) => "signal-stream",
+        Handle_::IfaceRef(_) => "iface-ref",
+    }
+}
+
+/// kinds: bitmask over [clone, stream, rule-stream, proxy, signal-stream, iface-ref]
+fn drop_scenario(mask: u32, with_server: bool) -> ExecResult {
+    let mut w = World::new();
+    w.horizon = 400;
+    let link = Link::new();
+    let sock = link.end_a(SockCfg::default());
+    let built = w
+        .complete("build", async move {
+            let mut b = Builder::authenticated_socket(sock, GUID)
+                .unwrap()
+                .p2p()
+                .internal_executor(false);
+            if with_server {
+                b = b
+                    .serve_at("/s", Slow { gate: Gate::default(), started: Default::default() })
+                    .unwrap();
+            }
+            let conn = b.build().await.unwrap();
+            let mut hs: Vec<Handle_> = vec![];
+            if mask & 1 != 0 {
+                hs.push(Handle_::Clone(conn.clone()));
+            }
+            if mask & 2 != 0 {
+                hs.push(Handle_::Stream(MessageStream::from(&conn)));
+            }
+            if mask & 4 != 0 {
+                let rule = MatchRule::builder().msg_type(zbus::message::Type::Signal).interface("a.b").unwrap().build();
+                hs.push(Handle_::RuleStream(MessageStream::for_match_rule(rule, &conn, None).await.unwrap()));
+            }
+            if mask & (8 | 16) != 0 {
+                let proxy: zbus::Proxy<'static> = zbus::proxy::Builder::new(&conn)
+                    .destination(":1.5")
+                    .unwrap()
+                    .path("/o")
+                    .unwrap()
+                    .interface("a.b.I")
+                    .unwrap()
+                    .cache_properties(CacheProperties::No)
+                    .build()
+                    .await
+                    .unwrap();
+                if mask & 16 != 0 {
+                    hs.push(Handle_::SignalStream(proxy.receive_signal("Sig").await.unwrap()));
+                }
+                if mask & 8 != 0 {
+                    hs.push(Handle_::Proxy(proxy));
+                }
+            }
+            if mask & 32 != 0 && with_server {
+                hs.push(Handle_::IfaceRef(conn.object_server().interface::<_, Slow>("/s").await.unwrap()));
+            }
+            (conn, hs)
+        })
+        .expect("build");
+    let (conn, hs) = built;
+    let mut handles: Vec<Option<Handle_>> = hs.into_iter().map(Some).collect();
+    let mut main = Some(conn);
+    let mut res = ExecResult::default();
+    let mut early = false;
+    loop {
+        let remaining: Vec<usize> = handles.iter().enumerate().filter(|(_, h)| h.is_some()).map(|(i, _)| i).collect();
+        let n_env = remaining.len() + main.is_some() as usize;
+        let live = n_env;
+        if live > 0 && closed(&link) && !early {
+            early = true;
+            res.violations.push(
+                v("closed-only-when-all-handles-gone", format!("the transport closed while {live} handle(s) are still alive; trace={:?}", w.trace))
+                    .feat("kind", "closed-early"),
+            );
+        }
+        match w.step(n_env) {
+            Step::Ran(_) => {}
+            Step::Env(k) => {
+                if k < remaining.len() {
+                    let h = handles[remaining[k]].take().unwrap();
+                    w.obs(format!("drop {}", handle_name(&h)));
+                    drop(h);
+                } else {
+                    w.obs("drop main connection handle");
+                    main.take();
+                }
+            }
+            _ => break,
+        }
+    }
+    res.capped = w.hit_horizon;
+    res.steps = w.steps;
+    let all_gone = handles.iter().all(|h| h.is_none()) && main.is_none();
+    w.obs(format!("all handles gone={all_gone} closed={}", closed(&link)));
+    if !w.hit_horizon && all_gone && !closed(&link) {
+        res.violations.push(
+            v("closed-when-last-handle-dropped", format!("every handle was dropped and nothing is runnable, but the peer does not see the transport closing (write half alive); trace={:?}", w.trace))
+                .feat("kind", "never-closed")
+                .feat("with_server", with_server),
+        );
+    }
+    res.log = std::mem::take(&mut w.log);
+    res
+}
+
+fn shutdown_scenario(spawn: bool, extra_clone: bool) -> ExecResult {
+    let mut w = World::new();
+    w.horizon = 400;
+    let link = Link::new();
+    let sock = link.end_a(SockCfg::default());
+    let gate = Gate::default();
+    let started: Arc<Mutex<bool>> = Default::default();
+    let (g2, s2) = (gate.clone(), started.clone());
+    let conn = w
+        .complete("build", async move {
+            let b = Builder::authenticated_socket(sock, GUID)
+                .unwrap()
+                .p2p()
+                .internal_executor(false);
+            let b = if spawn {
+                b.serve_at("/s", Slow { gate: g2, started: s2 }).unwrap()
+            } else {
+                b.serve_at("/s", SlowNoSpawn { gate: g2, started: s2 }).unwrap()
+            };
+            b.build().await.unwrap()
+        })
+        .expect("build");
+    let call = zbus::Message::method_call("/s", "Work").unwrap().interface("a.b.Slow").unwrap().build(&()).unwrap();
+    let call_serial = call.primary_header().serial_num();
+    link.b2a.push(call.data().bytes(), vec![]);
+    // let the handler start (default schedule; not part of the explored space)
+    w.settle();
+    let mut res = ExecResult::default();
+    if !*started.lock().unwrap() {
+        res.violations.push(v("harness", "the gated handler did not start").feat("kind", "harness"));
+        return res;
+    }
+    let mut clone = if extra_clone { Some(conn.clone()) } else { None };
+    let shutdown = w.spawn("graceful_shutdown", conn.graceful_shutdown());
+    let mut released = false;
+    let replied = |link: &Link| {
+        let out = link.a2b.written();
+        let (msgs, _) = split_messages(&out);
+        msgs.iter().any(|r| parse_message(&out[r.clone()]).map(|m| m.header().reply_serial() == Some(call_serial)).unwrap_or(false))
+    };
+    let mut early = false;
+    loop {
+        if shutdown.is_done() && !replied(&link) && !early {
+            early = true;
+            res.violations.push(
+                v("shutdown-waits-for-inflight-handlers", format!("graceful_shutdown completed although the in-flight handler has not replied yet (released={released}); trace={:?}", w.trace))
+                    .feat("kind", "shutdown-early")
+                    .feat("spawn", spawn),
+            );
+        }
+        if shutdown.is_done() && clone.is_some() && !early {
+            early = true;
+            res.violations.push(
+                v("shutdown-waits-for-inflight-handlers", format!("graceful_shutdown completed while another handle to the connection is alive; trace={:?}", w.trace))
+                    .feat("kind", "shutdown-with-live-clone")
+                    .feat("spawn", spawn),
+            );
+        }
+        let mut menu = vec![];
+        if !released {
+            menu.push("release");
+        }
+        if clone.is_some() {
+            menu.push("drop-clone");
+        }
+        match w.step(menu.len()) {
+            Step::Ran(_) => {}
+            Step::Env(k) => {
+                w.obs(menu[k]);
+                if menu[k] == "release" {
+                    released = true;
+                    gate.open();
+                } else {
+                    clone.take();
+                }
+            }
+            _ => break,
+        }
+    }
+    res.capped = w.hit_horizon;
+    res.steps = w.steps;
+    w.obs(format!("shutdown done={} replied={} closed={}", shutdown.is_done(), replied(&link), closed(&link)));
+    if !w.hit_horizon && released && clone.is_none() {
+        if !replied(&link) {
+            res.violations.push(v("inflight-handler-replies", format!("the handler was released but its reply never reached the wire; trace={:?}", w.trace)).feat("kind", "reply-lost").feat("spawn", spawn));
+        }
+        if !shutdown.is_done() {
+            res.violations.push(
+                v("shutdown-completes-once-handlers-replied", format!("the handler replied, every handle is gone, nothing is runnable, but graceful_shutdown never completed; trace={:?}", w.trace))
+                    .feat("kind", "shutdown-hangs")
+                    .feat("spawn", spawn),
+            );
+        }
+    }
+    res.log = std::mem::take(&mut w.log);
+    res
+}
+
+pub fn main(args: &Args) -> i32 {
+    let report = Report::new("C39", args.tier, args.seed, "model_checking");
+    let totals = Mutex::new(Totals::default());
+    let quick = args.tier == vcommon::Tier::Quick;
+    for with_server in [false, true] {
+        for mask in 0u32..64 {
+            if !with_server && mask & 32 != 0 {
+                continue;
+            }
+            let n = mask.count_ones();
+            // quick: all subsets of ≤ 3 handle kinds (+ the full set); thorough: all subsets
+            if quick && n > 3 && mask != 63 && mask != 31 {
+                continue;
+            }
+            let plan = SchedPlan {
+                bounds: match (quick, n) {
+                    (true, 0..=2) => vec![None],
+                    (true, 3) => vec![Some(3)],
+                    (true, _) => vec![Some(2)],
+                    (false, 0..=3) => vec![None],
+                    (false, _) => vec![Some(4)],
+                },
+                max_execs: args.tier.pick(2_000_000, 50_000_000),
+                time_budget_s: args.tier.pick(120.0, 900.0),
+            };
+            run_scenario(
+                &report,
+                &totals,
+                &format!("drop-handles-mask{mask:06b}-{}", if with_server { "server" } else { "plain" }),
+                json!({"mask": mask, "with_server": with_server}),
+                &plan,
+                move || drop_scenario(mask, with_server),
+            );
+        }
+    }
+    for spawn in [true, false] {
+        for extra_clone in [false, true] {
+            let plan = SchedPlan {
+                bounds: if quick { vec![Some(4)] } else { vec![None] },
+                max_execs: 20_000_000,
+                time_budget_s: args.tier.pick(120.0, 900.0),
+            };
+            run_scenario(
+                &report,
+                &totals,
+                &format!("graceful-shutdown-{}{}", if spawn { "spawn" } else { "nospawn" }, if extra_clone { "-clone" } else { "" }),
+                json!({"spawn": spawn, "extra_clone": extra_clone}),
+                &plan,
+                move || shutdown_scenario(spawn, extra_clone),
+            );
+        }
+    }
+    report.assume("the peer observes closing as the write half being dropped/closed (in-memory transport)");
+    report.assume("tasks spawned through the seam that are still queued when the last handle goes are polled by the harness (an executor that is dropped cancels them instead)");
+    finish_model_checking(
+        &report,
+        &totals,
+        "A: every subset of handle kinds × every drop order × task polls (DFS, deviation bound); B: graceful shutdown with a gated in-flight handler (spawn on/off, extra clone), release/drop as environment events",
+    )
 }
